@@ -14,6 +14,7 @@ import itertools
 import json
 
 from mon import refbufr as R
+from mon import handover
 from mon import nested
 from mon.compare import diff_message, opsig, jsonable, td_of
 from mon.gen import cases
@@ -257,6 +258,8 @@ def compare_case(ctx, dec, msg, origin, name=None, extra=None, enc=None):
     feats = features(msg)
     mode = 'c' if msg.compressed else 'u'
     fsig = '+'.join(feats) or 'plain'
+    # attributes stay with their owners whatever was done with the message object before the hierarchical view is taken
+    handover.on_message(ctx, msg.bytes, spec, site=origin, p=0.2)
     nlinks = sum(len(s.links) for s in msg.subsets)
     nassoc = sum(1 for s in msg.subsets for l in s.labels if l[0] == 'A')
     try:
